@@ -165,7 +165,7 @@ func TestVerifC01NoiseMatrix(t *testing.T) {
 					if !(ci.Expect == "match" && cr.Expect == "match" && ci.Prologue == "" && cr.Prologue == "" && ci.Entry == "T" && cr.Entry == "T") {
 						a.nontrivial(b.id())
 					}
-					cls := fmt.Sprintf("I[%s/%s] R[%s/%s] prologue-%s: I=%s R=%s", ci.Entry, ci.Expect, cr.Entry, cr.Expect, c01ProPair(ci, cr), run.A.resultClass(), run.B.resultClass())
+					cls := fmt.Sprintf("I expects %s, R expects %s, prologue pairing %s: I=%s R=%s", ci.Expect, cr.Expect, c01ProPair(ci, cr), run.A.resultClass(), run.B.resultClass())
 					a.r.Outcome(cls)
 					if len(keys) == 0 && (n%977 == 0 || n == 1) {
 						a.r.Sample(map[string]any{"baseline": b.id(), "initiator": c01Describe(run.A), "responder": c01Describe(run.B)})
